@@ -963,7 +963,12 @@ class Watcher(object):
 
         self._create_redirectors()
         self.reap_processes()
-        yield self.spawn_processes()
+        try:
+            yield self.spawn_processes()
+        except Exception:
+            # whatever went wrong, the watcher must not stay 'starting'
+            yield self._stop(True)
+            raise
 
         # If not self.processes, the before_spawn or after_spawn hooks have
         # probably prevented startup so give up
